@@ -241,6 +241,8 @@ def build(entry, p, form, place, limit, with_limit):
             lim = lambda path=None, data=None, **kwds: data[path + '..lim']        # noqa: E731
         elif form == 'prefix':
             lim = '..length'
+        elif form == 'pathmissing':
+            lim = '..nosuchkey'             # state.run: a limit path that does not exist counts as 0
     if form == 'field':
         # the limit is a data field the machine's own grammar refers to (CIP: ...length)
         pre[entry.field] = limit
@@ -319,8 +321,8 @@ def pred_case(case, stats):
     else:
         E_in = E
     n = len(E)
-    L = case['limit']
     form = case['form']
+    L = 0 if form == 'pathmissing' else case['limit']
     has_limit = form != 'none'
     mname = case['m']
 
@@ -491,7 +493,7 @@ def cases(draw, names):
     src = draw(st.sampled_from(['peek', 'chain', 'chain', 'chain-pre', 'remember']))
     total = n + t + (2 if form == 'prefix' else 0)
     cuts = []
-    if src != 'peek' and not entry.whole:
+    if src != 'peek' and not (entry.whole or enc.whole):
         cuts = sorted(draw(st.lists(st.integers(0, total), max_size=3)))
     short = 0
     if entry.group in ('primitive', 'scalar') and enc.k is not None and enc.k > 0 and n > 0 and draw(st.integers(0, 9)) == 0:
